@@ -87,7 +87,7 @@ def generate(rng, tier):
                               ["recurrence", "mode:" + md, "max:%d" % mx], fam="R"))
         elif r < 0.86:
             # --ref / ISODATETIMEREF and the keyword "ref"; pairs with --offset1/--offset2; pairs with a duration print format
-            k = rng.choice(["ref", "ref", "off12", "off12", "dfmt", "pfmt", "pfmt", "pfmt", "alias", "alias"])
+            k = rng.choice(["ref", "ref", "off12", "off12", "dfmt", "pfmt", "pfmt", "pfmt", "alias", "alias", "now", "now", "total", "stdin"])
             if k == "ref":
                 T, T2 = rand_text(rng, "G", big=False), rand_text(rng, "G", big=False)
                 off = rng.choice(OFFSETS)
@@ -130,6 +130,27 @@ def generate(rng, tier):
                     b = [cal, "--ref=" + t1, "ref", "--offset1=" + o1]
                 lines = ["cli -- " + " ".join(enc(x) for x in a), "cli -- " + " ".join(enc(x) for x in b)]
                 cases.append(Case(lines, ["option-spelling", "shape:" + shape, "mode:" + md], fam="A"))
+            elif k == "now":
+                n = rng.choice([0, 1, 86399, 951782400, 1582934399, 1709164800, rng.randint(0, 2 * 10**9)])
+                tz = rng.choice([0, 0, -3600, 3600, -19800, 20700, -45900, 43200, -50400, 12600])
+                offs = [rng.choice(OFFSETS) for _ in range(rng.choice([0, 0, 1, 2]))]
+                utc = int(rng.random() < 0.4)
+                cases.append(Case(["cli_now %s %d %d %d %s %d %s" % (md, utc, n, tz, rng.choice(["now", "none"]), len(offs),
+                                                                     " ".join(enc(o) for o in offs))],
+                                  ["now", "mode:" + md, "utc:%d" % utc, "local-utc:%d" % (tz == 0)], fam="P"))
+            elif k == "total":
+                d = rng.choice(["PT1H", "PT90M", "P1D", "P1DT1H30M", "PT0,5H", "PT1.5S", "P1W", "PT36H", "-PT30M", "P2DT12H",
+                                "PT%dS" % rng.randint(0, 10**6), "PT%dM%dS" % (rng.randint(0, 999), rng.randint(0, 59)),
+                                "P1Y", "P1M", "P1Y2M3DT4H"])
+                cases.append(Case(["cli_total %s %s" % (rng.choice("HMShms"), enc(d))], ["as-total-single"], fam="P"))
+            elif k == "stdin":
+                t1, t2 = rand_text(rng, md, big=False), rand_text(rng, md, big=False)
+                items = rng.choice([[t1], [t1, t2], ["R3/" + t1 + "/P1D"]])
+                opts = ["--calendar=" + {"G": "gregorian", "360": "360day", "365": "365day", "366": "366day"}[md]]
+                if len(items) == 1 and not items[0].startswith("R"):
+                    opts += ["--offset=" + rng.choice(OFFSETS)]
+                cases.append(Case(["cli_stdin %d %s %s" % (len(items), " ".join(enc(x) for x in items), " ".join(enc(x) for x in opts))],
+                                  ["stdin", "items:%d" % len(items)], fam="I"))
             elif k == "pfmt":
                 # --parse-format (strptime notation), with and without --utc: the zone read by %z must be honoured and
                 # converted, and the result is printed in the same notation
@@ -194,7 +215,7 @@ def model_lines(c):
 
 def corr(c):
     """model vs implementation on the command line's own output"""
-    if not c.model or c.meta["fam"] in ("E", "Q", "O", "F", "P", "A"):
+    if not c.model or c.meta["fam"] in ("E", "Q", "O", "F", "P", "A", "I"):
         return []
     m = c.model[0]
     cli = c.impl[0].split(" ; ", 1)[0].strip()
@@ -225,6 +246,11 @@ def judge(c):
         if out != c.impl[1]:
             res.append(("violation", "%s prints %s but %s prints %s (the short and alternative option spellings must select what the long ones select)" % (
                 c.lines[0], out, c.lines[1], c.impl[1])))
+        return res
+    if fam == "I":
+        a, b = [x.strip() for x in out.split(" ; ", 1)]
+        if a != b or a.startswith("EXC"):
+            res.append(("violation", "%s: read from standard input the command prints %s, given as arguments %s" % (c.lines[0], a, b)))
         return res
     if fam == "O":
         cli, verdict = [x.strip() for x in out.split(" ; ", 1)]
